@@ -262,7 +262,7 @@ pub fn tier_budget(prop: &str, tier: &str) -> (usize, Duration) {
     let thorough = tier == "thorough";
     let n = match (prop, thorough) {
         (_, false) => 40_000,
-        (_, true) => 1_000_000,
+        (_, true) => 500_000,
     };
     (n, if thorough { Duration::from_secs(1500) } else { Duration::from_secs(240) })
 }
